@@ -118,8 +118,8 @@ Proof.
   rewrite (map_nth (fun i => map (fun k => cell_of Dna 0%N dec_value (cols_of counts) i k) (seq 0 (aK Dna)))), seq_nth by exact Hi.
   cbn [Nat.add].
   rewrite Forall_forall in Hrows. destruct (Hrows (nth i counts []) (nth_In _ _ Hi)) as (Hl & Hc).
-  apply (nth_ext _ _ 0%N 0%N); [rewrite map_length, seq_length; cbn; lia|].
-  intros k Hk. rewrite map_length, seq_length in Hk. cbn [aK Dna] in Hk.
+  apply (nth_ext _ _ 0%N 0%N); [rewrite map_length, seq_length, Hl; reflexivity|].
+  intros k Hk. rewrite map_length, seq_length in Hk. change (k < 5) in Hk.
   rewrite (nth_indep _ 0%N ((fun k => cell_of Dna 0%N dec_value (cols_of counts) i k) 0))
     by (rewrite map_length, seq_length; exact Hk).
   rewrite (map_nth (fun k => cell_of Dna 0%N dec_value (cols_of counts) i k)), seq_nth by exact Hk. cbn [Nat.add].
